@@ -702,6 +702,9 @@ func (self *LockDB) FreeCollect() error {
 }
 
 func (self *LockDB) startCheckLoop() {
+	if verifManualClock() {
+		return
+	}
 	timeoutWaiter, expriedWaiter, removeLockManagerWaiter := make(chan struct{}, 16), make(chan struct{}, 16), make(chan struct{}, 1)
 	go self.updateCurrentTime(timeoutWaiter, expriedWaiter, removeLockManagerWaiter)
 	go self.checkTimeOut(timeoutWaiter)
@@ -818,6 +821,7 @@ func (self *LockDB) checkTimeTimeOut(checkTimeoutTime int64, now int64, glockInd
 		self.freeLongWaitQueues[glockIndex].FreeLongWaitLockQueue(longLocks, self.currentTime)
 	}
 	self.managerGlocks[glockIndex].HighPriorityUnlock()
+	verifPoint("sweep.timeout.collected", self, glockIndex)
 
 	lock = doTimeoutLocks.Pop()
 	for lock != nil {
@@ -1079,6 +1083,7 @@ func (self *LockDB) checkTimeExpried(checkExpriedTime int64, now int64, glockInd
 		self.freeLongWaitQueues[glockIndex].FreeLongWaitLockQueue(longLocks, self.currentTime)
 	}
 	self.managerGlocks[glockIndex].HighPriorityUnlock()
+	verifPoint("sweep.expried.collected", self, glockIndex)
 
 	lock = doExpriedLocks.Pop()
 	for lock != nil {
@@ -1998,6 +2003,7 @@ func (self *LockDB) Lock(serverProtocol ServerProtocol, command *protocol.LockCo
 	}
 
 	lockManager := self.GetOrNewLockManager(command)
+	verifPoint("lock.mgr.got", lockManager, command)
 	if lockPriorityLevel == 0 {
 		lockManager.glock.LowPriorityLock()
 	} else {
@@ -2314,6 +2320,7 @@ func (self *LockDB) UnLock(serverProtocol ServerProtocol, command *protocol.Lock
 		atomic.AddUint32(&self.states[self.managerMaxGlocks].UnlockErrorCount, 1)
 		return nil
 	}
+	verifPoint("unlock.mgr.got", lockManager, command)
 
 	if lockPriorityLevel == 0 {
 		lockManager.glock.LowPriorityLock()
@@ -2561,6 +2568,7 @@ func (self *LockDB) doCheckLockWaitPriority(lockManager *LockManager, lock *Lock
 }
 
 func (self *LockDB) wakeUpWaitLocks(lockManager *LockManager, serverProtocol ServerProtocol) {
+	verifPoint("wake.enter", lockManager, nil)
 	if lockManager.waited {
 		lockManager.glock.Lock()
 		waitLock := lockManager.GetWaitLock()
@@ -2571,6 +2579,7 @@ func (self *LockDB) wakeUpWaitLocks(lockManager *LockManager, serverProtocol Ser
 			}
 
 			self.wakeUpWaitLock(lockManager, waitLock, serverProtocol)
+			verifPoint("wake.iter", lockManager, nil)
 			lockManager.glock.Lock()
 			waitLock = lockManager.GetWaitLock()
 		}
@@ -2790,6 +2799,7 @@ func (self *LockDB) unlockTreeLock(serverProtocol ServerProtocol, command *proto
 }
 
 func (self *LockDB) DoAckLock(lock *Lock, succed bool) {
+	verifPoint("ack.enter", lock, succed)
 	lockManager := lock.manager
 	lockManager.glock.Lock()
 
